@@ -92,4 +92,10 @@ class Pool:
             t.start()
         for t in threads:
             t.join()
+        for tid, r in results.items():
+            if "worker_exc" in r:
+                from .tlc import MachineryError
+
+                raise MachineryError(
+                    f"native worker failed on task {tid}: {r.get('worker_exc')}: {r.get('msg')}\n{r.get('tb')}")
         return results
